@@ -3,6 +3,8 @@ import Flatland.C16
 import Flatland.C16.Tables
 import Flatland.Generated.C16Catalogues
 import Flatland.Spec.C16
+import Flatland.C15
+import Flatland.Run.C15
 open Lean
 open Flatland.J hiding Str
 namespace Flatland.Run.C16
@@ -193,10 +195,64 @@ def runSyn (j : Json) : Except String Json := do
     ("errors", ofList ofChars errs),
     ("spec_agrees", Json.bool agrees)]
 
+/-- a real built-in validator (the C15 model decides the verdict and the `note_error` call)
+    under a shipped locale placed on the state, the element, its root or builtins -/
+def runBuiltin (j : Json) : Except String Json := do
+  let c ← fld j "c15"
+  let v ← Flatland.Run.C15.parseV (← fld c "v")
+  let e ← Flatland.Run.C15.parseView (← fld c "view")
+  let pre ← (← arr (fldD c "pre_errors" (Json.arr #[]))).mapM chars
+  let langJ := fldD j "lang" Json.null
+  let place ← sfld j "place"
+  let withN ← bool (fldD j "with_n" (Json.bool true))
+  let u : Option UTr ← if isNull langJ then pure none else parseU (obj [("locale", langJ)])
+  let n : Option NTr ← if isNull langJ || !withN then pure none else parseN (obj [("locale", langJ)])
+  let sl {α} (x : Option α) : Slot α := match x with | some f => .present (some f) | none => .absent
+  let noSt {α} : StateSlots α := ⟨.absent, .notSubscriptable⟩
+  let stateTarget : List Target :=
+    if place == "state-dict" then [{ subscriptable := true, items := [], attrs := [] }]
+    else if place == "state-obj" then [{ subscriptable := false, items := [], attrs := [] }]
+    else []
+  let uState : StateSlots UTr :=
+    if place == "state-dict" then ⟨.absent, match u with | some f => .found (some f) | none => .keyError⟩
+    else if place == "state-obj" then ⟨sl u, .notSubscriptable⟩ else noSt
+  let nState : StateSlots NTr :=
+    if place == "state-dict" then ⟨.absent, match n with | some f => .found (some f) | none => .keyError⟩
+    else if place == "state-obj" then ⟨sl n, .notSubscriptable⟩ else noSt
+  let uAnc : List (AncSlots UTr) :=
+    if place == "element" then [⟨sl u, none⟩]
+    else if place == "root" then [⟨.absent, none⟩, ⟨sl u, none⟩] else [⟨.absent, none⟩]
+  let nAnc : List (AncSlots NTr) :=
+    if place == "element" then [⟨sl n, none⟩]
+    else if place == "root" then [⟨.absent, none⟩, ⟨sl n, none⟩] else [⟨.absent, none⟩]
+  let uB : Slot UTr := if place == "builtins" then sl u else .absent
+  let nB : Slot NTr := if place == "builtins" then sl n else .absent
+  let res : Except Raise (Bool × List Str) := do
+    let (b, note) ← Flatland.C15.verdict v e
+    match note with
+    | none => pure (b, pre)
+    | some nt =>
+      match Flatland.C15.messageOf Flatland.Generated.C16.builtinMessages v.className nt.key with
+      | none => .error .attributeError
+      | some msg =>
+        let base := Flatland.C15.envOf v e nt.info
+        let targets := match base.targets with
+          | kw :: rest => kw :: (stateTarget ++ rest)
+          | [] => []
+        let env : Env := { targets := targets, uState := uState, nState := nState,
+                           uAnc := uAnc, nAnc := nAnc, uBuiltin := uB, nBuiltin := nB }
+        let errs ← noteError env pre msg
+        pure (b, errs)
+  match res with
+  | .error r => return obj [("raise", Json.str r.name), ("verdict", Json.null), ("errors", ofList ofChars pre)]
+  | .ok (b, errs) =>
+    return obj [("raise", Json.null), ("verdict", Json.bool b), ("errors", ofList ofChars errs)]
+
 def run (j : Json) : Except String Json := do
   let kind ← sfld j "k"
   match kind with
   | "syn" => runSyn j
+  | "builtin" => runBuiltin j
   | k => throw s!"C16: unknown case kind {k}"
 
 end Flatland.Run.C16
